@@ -52,6 +52,8 @@ MID = [
     "</p><p><i>Bar</i> again.",
     " (<em>Bar,</em> dissenting).",
     " In <i>Li</i> we held.",
+    " We dis\u00adagree.\n   Bar at 7 says so.",
+    " We dis&shy;agree. See Bar at 9 and\u200b <i>Bar</i> too.",
     # a second case whose parenthetical mentions the first one in a style tag, directly followed by a supra / short form
     " Doe v. Roe, 2 U.S. 2 (1991) (citing <em>Bar</em>, supra, at 5).",
     " Doe v. Roe, 2 U.S. 2 (1991) (citing <em>Bar,</em> 1 U.S., at 5).",
@@ -78,8 +80,13 @@ def bounds(tier):
     return {"slots": {"pre": len(PRE), "name": len(NAME), "cite": len(CITE), "mid": len(MID), "mid2": len(MID), "end": len(END)}, "step_lists": STEPS, "tokenizers": ["AC"] + (["HS"] if tier == "thorough" else [])}
 
 
+_TIER = {"t": "thorough"}
+
+
 def documents():
-    for pre, name, cite, mid, mid2, end in itertools.product(PRE, NAME, CITE, MID, MID, END):
+    # the second later-mention slot ranges over the whole domain in the thorough tier, over the first 8 values and '' in quick
+    mid2_dom = MID if _TIER["t"] == "thorough" else MID[:8] + [""]
+    for pre, name, cite, mid, mid2, end in itertools.product(PRE, NAME, CITE, MID, mid2_dom, END):
         if pre.startswith("<div") != end.endswith("</div>"):
             continue
         if (pre == "") != (end == ""):
@@ -151,6 +158,8 @@ def replay(case):
 
 
 def setup(tier, seed):
+    if tier in ("quick", "thorough"):
+        _TIER["t"] = tier
     if tier == "thorough":
         tokenizer("HS")
 
@@ -161,7 +170,8 @@ def shards(tier, seed):
 
 
 def opt_shards(tier):
-    return [{"tok": "AC", "r": r, "n": 16} for r in range(16)]
+    _TIER["t"] = "quick"
+    return [{"tok": "AC", "r": r, "n": 64} for r in range(16)]  # every fourth document of the quick product
 
 
 def run_shard(sh):
